@@ -22,7 +22,11 @@ class Iter:
         self.fi = fi
         self.spec = spec
         self.ordinal = fi.loop_nodes().index(s)
-        self.key = 'idx%d' % self.ordinal
+        if getattr(s, '_ref_ordinal', None) is not None:
+            self.ordinal = s._ref_ordinal       # see Exec.loop
+        elif hasattr(s, '_ref_ordinal'):
+            self.ordinal = 'X%d' % self.ordinal
+        self.key = 'idx%s' % self.ordinal
 
     def rebind(self, st):
         return self
@@ -256,6 +260,45 @@ def make(ex, s, itv, st, fi, spec):
         return ListIter(*args)
     if isinstance(itv, Opaque) and itv.tag == 'matchiter':
         return MatchIter(*args)
+    if isinstance(itv, tuple) and itv and itv[0] == '$items' and \
+            isinstance(itv[1], PyDict):
+        # for k, v in d.items():  k as in `for k in d`, v = d[k]
+        d = itv[1]
+        if d.has is None:
+            lst = TokList([Single((k, v)) for k, v in d.items.items()] +
+                          [Single((k, v)) for k, v in d.sym_items])
+            return ListIter(ex, s, lst, st, fi, spec)
+        hook = ex.contracts.dict_iter
+        mk0 = hook(ex, st, d) if hook else NotImplemented
+        if mk0 is NotImplemented:
+            def mk0(ex_, st_, d=d):
+                k = sym.fresh_seq('str', 'key', st_.assume)
+                st_.assume(d.has(ex_, st_, k))
+                return k
+
+        def mk(ex_, st_, d=d, mk0=mk0):
+            k = mk0(ex_, st_)
+            return (k, ex_.dict_get(d, k, st_, s.lineno, check=False))
+        return HookIter(*args, mk=mk)
+    if isinstance(itv, tuple) and itv and itv[0] == '$values' and \
+            isinstance(itv[1], PyDict):
+        # for v in d.values():  v = d[k] for a key k as in `for k in d`
+        d = itv[1]
+        if d.has is None:
+            lst = TokList([Single(v) for v in d.items.values()] +
+                          [Single(v) for k, v in d.sym_items])
+            return ListIter(ex, s, lst, st, fi, spec)
+        hook = ex.contracts.dict_iter
+        mk0 = hook(ex, st, d) if hook else NotImplemented
+        if mk0 is NotImplemented:
+            def mk0(ex_, st_, d=d):
+                k = sym.fresh_seq('str', 'key', st_.assume)
+                st_.assume(d.has(ex_, st_, k))
+                return k
+
+        def mkv(ex_, st_, d=d, mk0=mk0):
+            return ex_.dict_get(d, mk0(ex_, st_), st_, s.lineno, check=False)
+        return HookIter(*args, mk=mkv)
     if isinstance(itv, tuple) and itv and itv[0] == '$keys':
         itv = itv[1]
     if isinstance(itv, PyDict):
